@@ -16,6 +16,11 @@ type Timer struct {
 	// interval cancelled while a tick is being handled is not re-armed.
 	mu      sync.Mutex
 	stopped bool
+
+	// looping is true while the goroutine of an interval is alive (it survives its
+	// ticks), so that a Refresh landing on a tick does not start a second one.
+	interval bool
+	looping  bool
 }
 
 func (t *Timer) Refresh() *Timer {
@@ -25,7 +30,8 @@ func (t *Timer) Refresh() *Timer {
 
 	defer t.timer.Reset(t.sleep)
 
-	if !t.timer.Stop() {
+	if !t.timer.Stop() && !t.looping {
+		t.looping = t.interval
 		go t.fn()
 	}
 
@@ -73,6 +79,9 @@ func (t *Timer) Stop() {
 	t.mu.Lock()
 	t.stopped = true
 	pending := t.timer.Stop()
+	if pending {
+		t.looping = false
+	}
 	t.mu.Unlock()
 
 	if pending {
@@ -85,6 +94,9 @@ func SetInterval(fn func(), sleep time.Duration) *Timer {
 		timer:  time.NewTimer(sleep),
 		sleep:  sleep,
 		stopCh: make(chan struct{}),
+
+		interval: true,
+		looping:  true,
 	}
 	timer.fn = func() {
 		for {
@@ -92,6 +104,13 @@ func SetInterval(fn func(), sleep time.Duration) *Timer {
 			case <-timer.timer.C:
 				timer.mu.Lock()
 				if timer.stopped {
+					if !timer.looping {
+						// Stop found the timer pending again (a Refresh landed on this
+						// tick) and is handing over on stopCh
+						timer.mu.Unlock()
+						continue
+					}
+					timer.looping = false
 					timer.mu.Unlock()
 					return
 				}
